@@ -212,7 +212,16 @@ func init() {
 				}
 				ir.EachInstr(f, func(in ssa.Instruction) {
 					call, ok := in.(*ssa.Call)
-					if !ok || !strings.HasSuffix(ir.CalleeName(&call.Call), "AdaptiveMaxCalculator.GetAdaptiveBounds") || call.Referrers() == nil {
+					if !ok || call.Referrers() == nil {
+						return
+					}
+					direct := strings.HasSuffix(ir.CalleeName(&call.Call), "AdaptiveMaxCalculator.GetAdaptiveBounds")
+					viaGetter := false
+					if !call.Call.IsInvoke() && call.Call.StaticCallee() == nil {
+						d := ir.Desc(call.Call.Value)
+						viaGetter = strings.HasSuffix(d, ".adaptiveLatencyGetter") || strings.HasSuffix(d, ".adaptiveSyncGetter")
+					}
+					if !direct && !viaGetter {
 						return
 					}
 					nSites++
